@@ -4,9 +4,9 @@ Model of `Paris.fit` (sknetwork/hierarchy/paris.pyx, property C07) from the cons
 bookkeeping of connected components, their joining at infinite height, the optional reordering.
 The height of a merge is clamped from below by the heights of the two clusters it merges (repaired code).
 
-Generic in the scalar: `Rat` (with `round32 = id`) for the theorems, `Float` with
-`round32 x = x.toFloat32.toFloat` for the runs — the C code keeps `a`, `b`, `den`, `sim`, `max_sim` in
-`float` variables while the dicts hold Python floats (doubles).
+Generic in the scalar: `Rat` for the theorems, `Float` with `round32 x = x.toFloat32.toFloat` for the runs — the
+(repaired, F20) C code keeps only `sim` and `max_sim` in `float` variables; `a`, `b`, `den` and the total weight are
+doubles like the values of the dicts.
 
 What comes before (format checks, `get_probs`, symmetrisation, the unit diagonal for nodes of zero weight)
 is done by the harness with the library's own helpers; the model receives the CSR rows of the final matrix,
